@@ -9,11 +9,13 @@ ID = "C03"
 LEVEL = "model_checking"
 
 # (max_tau, MRTS); MRTS/4 ties with half-ISIs for MRTS = 2*ISI
-MENU_DENSE_Q = [(None, 0.0), (0.0, 0.0), (U, 0.0), (0.5 * U, 0.0), (None, 2 * U),
-                (None, 4 * U), (1.5 * U, 3 * U), (None, 6 * U)]
-MENU_BOUNDED_Q = [(None, 0.0), (U, 0.0), (None, 4 * U), (2 * U, 6 * U)]
+# on a lattice with spacing U the MRTS interpolation can only create a coincidence when
+# MRTS/4 > U, i.e. MRTS >= 6U (distance U) or >= 12U (distance 2U)
+MENU_DENSE_Q = [(None, 0.0), (0.0, 0.0), (U, 0.0), (0.5 * U, 0.0), (None, 4 * U),
+                (None, 6 * U), (1.5 * U, 8 * U), (None, 12 * U)]
+MENU_BOUNDED_Q = [(None, 0.0), (U, 0.0), (None, 6 * U), (2 * U, 12 * U)]
 MENU_T = [(mt, m) for mt in (None, 0.0, 0.5 * U, U, 1.5 * U, 2 * U, 3 * U, 9 * U)
-          for m in (0.0, U, 2 * U, 3 * U, 4 * U, 6 * U, 8 * U, 40 * U)]
+          for m in (0.0, 2 * U, 4 * U, 6 * U, 8 * U, 12 * U, 16 * U, 40 * U)]
 
 
 def plan(tier):
